@@ -47,7 +47,8 @@ def _base(draw):
         b = draw(st.integers(-8, 12))
         c = draw(st.one_of(st.integers(-4, 4), st.just("_"), st.sampled_from([1, -1, 2, 3])))
         return {"k": "range", "nargs": nargs, "a": a, "b": b, "c": c, "alloc": draw(st.sampled_from(["heap", "stack"]))}
-    return {"k": k, "items": draw(_int_items())}
+    return {"k": k, "items": draw(_int_items()),
+            "via": draw(st.sampled_from(["direct", "direct", "popfront", "remfirst", "poptail", "pushfront", "growshrink", "popmid"]))}
 
 
 def _slice_arg():
@@ -248,17 +249,59 @@ class Builder:
         P = self.P
         k = e["k"]
         s = self.slot()
-        if k == "arr":
-            P.add("new %%%d heap t:Array t:Int %s" % (s, " ".join("i:%d" % v for v in e["items"])))
-        elif k == "lst":
-            P.add("new %%%d heap t:List t:Int %s" % (s, " ".join("i:%d" % v for v in e["items"])))
-        elif k == "tup":
-            refs = []
-            for v in e["items"]:
-                t = self.slot()
-                P.add("new %%%d heap t:Int i:%d" % (t, v))
-                refs.append("%%%d" % t)
-            P.add("new %%%d heap t:Tuple %s" % (s, " ".join(refs)))
+        if k in ("arr", "lst", "tup"):
+            # the same final contents reached through different mutation histories (unlink of head/tail/middle,
+            # insertion at the front, growth and shrink of the backing store) - the cursors must not care
+            via = e.get("via", "direct")
+            items = list(e["items"])
+            X = 424242
+            pre, post = list(items), []
+            if via == "popfront":
+                pre = [X] + items
+                post = [("pop_at", 0)]
+            elif via == "remfirst":
+                pre = [X] + items
+                post = [("rem", X)]
+            elif via == "poptail":
+                pre = items + [X]
+                post = [("pop", None)]
+            elif via == "pushfront" and len(items) >= 2:
+                pre = items[1:]
+                post = [("push_at0", items[0])]
+            elif via == "popmid" and len(items) >= 2:
+                m = len(items) // 2
+                pre = items[:m] + [X] + items[m:]
+                post = [("pop_at", m)]
+            elif via == "growshrink":
+                post = [("push", X)] * 9 + [("pop", None)] * 9
+            if k == "arr":
+                P.add("new %%%d heap t:Array t:Int %s" % (s, " ".join("i:%d" % v for v in pre)))
+            elif k == "lst":
+                P.add("new %%%d heap t:List t:Int %s" % (s, " ".join("i:%d" % v for v in pre)))
+            else:
+                refs = []
+                for v in pre:
+                    t = self.slot()
+                    P.add("new %%%d heap t:Int i:%d" % (t, v))
+                    refs.append("%%%d" % t)
+                P.add("new %%%d heap t:Tuple %s" % (s, " ".join(refs)))
+            for (op, a) in post:
+                if op == "pop_at":
+                    P.add("pop_at %%%d i:%d" % (s, a))
+                elif op == "rem":
+                    P.add("rem %%%d i:%d" % (s, a))
+                elif op == "pop":
+                    P.add("pop %%%d" % s)
+                elif op in ("push", "push_at0"):
+                    arg = "i:%d" % a
+                    if k == "tup":
+                        t = self.slot()
+                        P.add("new %%%d heap t:Int i:%d" % (t, a))
+                        arg = "%%%d" % t
+                    if op == "push":
+                        P.add("push %%%d %s" % (s, arg))
+                    else:
+                        P.add("push_at %%%d %s i:0" % (s, arg))
         elif k == "range":
             args = []
             n = e["nargs"]
